@@ -10,14 +10,22 @@ import (
 // takes a number of steps proportional to 1/(ratio-1).
 var MinPriceRatio = math.LegacyNewDecWithPrec(10001, 4)
 
+// MaxPriceRatio keeps |ratio - 1| <= 1/2: PowApprox (ratio^offset for a fractional base offset)
+// is a power series in ratio - 1 that is summed without gas metering until its terms fall below
+// 10^-8; at |ratio - 1| = 1 the terms decay like 1/sqrt(n) and the loop practically never ends.
+var MaxPriceRatio = math.LegacyNewDecWithPrec(15, 1)
+
 // ValidatePoolParams checks the parameters of a new pool: 0 <= fee rate < 1,
-// price ratio >= 1.0001 and -1 < base offset < 1.
+// 1.0001 <= price ratio <= 1.5 and -1 < base offset < 1.
 func ValidatePoolParams(feeRate, priceRatio, baseOffset math.LegacyDec) error {
 	if feeRate.IsNegative() || feeRate.GTE(math.LegacyOneDec()) {
 		return errors.New("fee rate must be in [0, 1)")
 	}
 	if priceRatio.LT(MinPriceRatio) {
 		return errors.New("price ratio must be at least 1.0001")
+	}
+	if priceRatio.GT(MaxPriceRatio) {
+		return errors.New("price ratio must be at most 1.5")
 	}
 	if baseOffset.Abs().GTE(math.LegacyOneDec()) {
 		return errors.New("base offset must be in (-1, 1)")
